@@ -45,6 +45,8 @@ Call(e) ==
     \/ e.ev = "rec"       /\ RecordE(e.name, e.cli, e.reason)
     \/ e.ev = "recn"      /\ RecordMany(e.n, e.name, e.cli, e.reason)
     \/ e.ev = "flush"     /\ Flush
+    \/ e.ev = "flushfail" /\ FlushFails
+    \/ e.ev = "autoflushfail" /\ AutoFlushFails
     \/ e.ev = "autoflush" /\ AutoFlush
     \/ e.ev = "rotate"    /\ Rotate
     \/ e.ev = "clear"     /\ Clear
@@ -58,7 +60,7 @@ Call(e) ==
 (* flush (nothing else is enabled while it is pending) and is compared.     *)
 TCall ==
     /\ l <= Len(Trace) /\ Trace[l].ev # "search"
-    /\ flushPending => Trace[l].ev = "autoflush"
+    /\ flushPending => Trace[l].ev \in {"autoflush", "autoflushfail"}
     /\ Call(Trace[l])
     /\ \/ Trace[l].ev = "rec" /\ flushPending'
        \/ ProjOK(Trace[l].s, mem', cur', rot', flushPending', memSize', enabled', anon', clock')
